@@ -839,6 +839,7 @@ pub fn do_special(w: &mut World, kind: &str, a: u64, b: u64, c: u64) -> VResult<
         "byz" => do_byz_commit(w, a as usize, 0, b as u8, c as u8),
         "apply_detached" => do_apply_detached(w, a as usize, c as usize, b),
         "bad_join" => do_bad_join(w, a, b as usize, c as usize),
+        "branch" => crate::c17::do_branch(w, a as usize, b, c),
         "observe" => crate::observer::do_observe(w, a as usize, b),
         "obs_feed" => crate::observer::do_obs_feed(w, a as usize, b),
         "obs_snapshot" => crate::observer::do_obs_snapshot(w, a as usize),
